@@ -21,6 +21,19 @@ fn main() {
                 _ => "E".to_string(),
             },
             "req" => match VersionReq::parse(f[1]) { Ok(r) => r.to_string(), Err(_) => "E".to_string() },
+            "matchesm" => match VersionReq::parse(f[1]) {
+                Ok(r) => {
+                    let mut o = String::new();
+                    for v in &f[2..] {
+                        match Version::parse(v) {
+                            Ok(v) => o.push(if r.matches(&v) { '1' } else { '0' }),
+                            Err(_) => o.push('x'),
+                        }
+                    }
+                    if o.is_empty() { "-".to_string() } else { o }
+                }
+                Err(_) => "E".to_string(),
+            },
             "matches" => match (VersionReq::parse(f[1]), Version::parse(f[2])) {
                 (Ok(r), Ok(v)) => if r.matches(&v) { "1".to_string() } else { "0".to_string() },
                 _ => "E".to_string(),
